@@ -364,3 +364,39 @@ func HarnessC01Enum() {
 	}
 	checkC01(&s, d)
 }
+
+// F4b: uniqueItems over composite items (JSON equality of arrays and objects, not of their renderings)
+func genComposite() interface{} {
+	switch verifChoose(10) {
+	case 0:
+		return []interface{}{1.0}
+	case 1:
+		return []interface{}{"1"}
+	case 2:
+		return []interface{}{verifBool()}
+	case 3:
+		return []interface{}{"true"}
+	case 4:
+		return []interface{}{""}
+	case 5:
+		return []interface{}{}
+	case 6:
+		return map[string]interface{}{"a": genNum()}
+	case 7:
+		return map[string]interface{}{"a": "1"}
+	case 8:
+		return []interface{}{"a b"}
+	default:
+		return []interface{}{"a", "b"}
+	}
+}
+
+func HarnessC01UniqueComposite() {
+	s := spec.Schema{}
+	s.UniqueItems = true
+	arr := []interface{}{genComposite(), genComposite()}
+	if verifBool() {
+		arr = append(arr, genScalar())
+	}
+	checkC01(&s, arr)
+}
